@@ -971,9 +971,13 @@ fn trait_methods<B: Backend>(bk: &str, sum: &mut Summary) {
     let names = ["empty", "inline", "borrowed", "heap", "heap-view", "heap with spare capacity", "short heap (with_capacity)"];
     for src_rep in 0..7 { for dst_rep in 0..7 { for shared_dst in [false, true] {
         sum.evaluations += 1;
+        alloc::reset_window_counters();
+        let live0 = alloc::snap().live;
+        alloc::set_window(true);
         let src = mk(src_rep);
         let mut dst = mk(dst_rep);
         let keep = if shared_dst { Some(dst.clone()) } else { None };
+        alloc::set_window(false);
         let want = src.clone();           // what a plain clone looks like (shares when it can)
         drop(want);
         let before = src.verif_repr().map(|r| r[6]);
@@ -995,11 +999,34 @@ fn trait_methods<B: Backend>(bk: &str, sum: &mut Summary) {
         if src.is_borrowed() && dst.as_ptr() != src.as_ptr() { bad.push("a clone of a borrowed value does not point at the borrowed data".into()); }
         if let Some(k) = &keep { if k.as_slice() != mk(dst_rep).as_slice() { bad.push("the destination's former co-owner changed".into()); } }
         if !bad.is_empty() { sum.violation(format!("{{\"what\":{},\"observed\":{},\"expected\":\"exactly what src.clone() gives\"}}", jstr(&what), jstr(&bad.join(" | ")))); }
+        // everything this scenario allocated is released once its values are gone (clone_from must release what the destination held)
+        let src_is_heap = src.is_allocated();
+        alloc::set_window(true);
+        drop(src); drop(dst); drop(keep);
+        alloc::set_window(false);
+        let live1 = alloc::snap().live;
+        if live1 != live0 { sum.violation(format!("{{\"what\":{},\"observed\":{},\"expected\":\"every block released\"}}", jstr(&what), jstr(&format!("{} block(s) obtained by the source, the destination and clone_from are still allocated after all of them were dropped (leak); source on the heap: {}", live1 as i64 - live0 as i64, src_is_heap)))); }
         // the wrappers forward clone_from too
         let (ss, mut ds) = (HipStr::<B>::try_from(mk(src_rep)).unwrap(), HipStr::<B>::try_from(mk(dst_rep)).unwrap());
         ds.clone_from(&ss);
         if ds.as_bytes() != ss.as_bytes() || kind_of(ds.verif_bytes()) != kind_of(ss.verif_bytes()) { sum.violation(format!("{{\"what\":{},\"observed\":\"content or representation differs\",\"expected\":\"exactly what src.clone() gives\"}}", jstr(&what.replace("clone_from:", "HipStr clone_from:")))); }
     } } }
+    // every way of importing bytes into a HipStr rejects an ill-formed byte at EVERY position (and accepts the well-formed text)
+    for n in [8usize, 16, 17, 24, 33] {
+        for pos in 0..n {
+            for bad in [0x80u8, 0xC3, 0xFF] {
+                let mut v: Vec<u8> = (0..n).map(|i| b'a' + (i % 26) as u8).collect(); v[pos] = bad;
+                if std::str::from_utf8(&v).is_ok() { continue; }
+                sum.evaluations += 4;
+                let accepted: Vec<&str> = [("TryFrom<&[u8]>", HipStr::<B>::try_from(&v[..]).is_ok()), ("TryFrom<Vec<u8>>", HipStr::<B>::try_from(v.clone()).is_ok()),
+                    ("TryFrom<HipByt>", HipStr::<B>::try_from(HipByt::<B>::from(&v[..])).is_ok()), ("from_utf8", HipStr::<B>::from_utf8(HipByt::<B>::from(&v[..])).is_ok())].iter().filter(|x| x.1).map(|x| x.0).collect();
+                if !accepted.is_empty() { sum.violation(format!("{{\"what\":{},\"observed\":{},\"expected\":\"Err: the bytes are not UTF-8\"}}", jstr(&format!("trait_methods import of ill-formed bytes bk={} bytes={} (byte {:#04x} at index {})", bk, hex(&v), bad, pos)), jstr(&format!("accepted by {:?}", accepted)))); }
+            }
+        }
+        let good: Vec<u8> = (0..n).map(|i| b'a' + (i % 26) as u8).collect();
+        sum.evaluations += 1;
+        if HipStr::<B>::try_from(&good[..]).map(|h| h.as_bytes() == &good[..]).unwrap_or(false) == false || HipStr::<B>::try_from(good.clone()).is_err() { sum.violation(format!("{{\"what\":{},\"observed\":\"rejected or altered\",\"expected\":\"Ok\"}}", jstr(&format!("trait_methods import of ASCII text of {} bytes bk={}", n, bk)))); }
+    }
     sum.evaluations += 4;
     if !(HipByt::<B>::default().is_inline() && HipByt::<B>::default().is_empty() && HipStr::<B>::default().is_inline() && Os::<B>::default().is_inline() && Pth::<B>::default().is_inline()) {
         sum.violation(format!("{{\"what\":{},\"observed\":\"not an empty inline value\",\"expected\":\"empty, inline, no allocation\"}}", jstr(&format!("trait_methods Default::default() bk={}", bk))));
